@@ -1391,6 +1391,7 @@ func oracleAccept(c *Case, b *built) []string {
 // ---- generators ---------------------------------------------------------------
 
 type gen struct {
+	hplain    bool // header-path case without any forgery, seal check on
 	plainAll  bool
 	forceCert bool
 	plain     bool // an honest header, one vote short of the quorum, no forgery
@@ -2387,8 +2388,26 @@ func runGen(seed uint64, n int, outDir, corpusDir, variant string) {
 	}
 	emitH := func(hc HCase) {
 		hc.Verdict, hc.Err = 0, ""
+		if strings.HasPrefix(hc.Comment, "corpus:") {
+			for i := range hc.Before {
+				p := cloneH(hc.Before[i])
+				observeH(&p)
+			}
+		}
 		hb := observeH(&hc)
 		bw := batchCheck(&hc, hb)
+		freshDiffers := ""
+		if count%9 == 4 || strings.HasPrefix(hc.Comment, "history:") || len(hc.Before) > 0 {
+			h2 := cloneH(hc)
+			aged := server
+			server, _ = ucon.NewVRFServer(nil)
+			observeH(&h2)
+			server = aged
+			res.Count("fresh_server_rerun")
+			if h2.Verdict != hc.Verdict {
+				freshDiffers = fmt.Sprintf("long-lived verifier: %s, fresh verifier: %s", hverdictName(hc.Verdict), hverdictName(h2.Verdict))
+			}
+		}
 		if count > 0 {
 			sb.WriteString(";\n")
 		}
@@ -2417,6 +2436,10 @@ func runGen(seed uint64, n int, outDir, corpusDir, variant string) {
 		if bw != "" {
 			ws = append(ws, whatBatch)
 			hc.Err = bw
+		}
+		if freshDiffers != "" {
+			ws = append(ws, whatHistory)
+			hc.Err = freshDiffers
 		}
 		for _, w := range ws {
 			res.Count("oracle:" + w)
@@ -2448,6 +2471,14 @@ func runGen(seed uint64, n int, outDir, corpusDir, variant string) {
 			}
 			continue
 		}
+		if variant == "fixed" && (count-gen0)%150 == 90 {
+			// fork history: the Server verifies a header on chain O, then the chain reader answers for fork N,
+			// whose block at the stake look-back height carries another validator set
+			for _, hc := range g.forked(res) {
+				emitH(hc)
+			}
+			continue
+		}
 		if variant == "fixed" && (count-gen0)%170 == 60 {
 			emit(g.bigDup(res)) // a handful per run: look-back sets beyond the cache capacities
 			continue
@@ -2458,6 +2489,19 @@ func runGen(seed uint64, n int, outDir, corpusDir, variant string) {
 			emit(g.one(res))
 		}
 	}
+	// hits whose input replays on its own (it carries the headers verified before it) come first
+	sort.SliceStable(res.OracleHits, func(i, j int) bool {
+		self := func(x interface{}) bool {
+			switch h := x.(type) {
+			case hit:
+				return len(h.Case.Before) > 0 || h.What != whatHistory
+			case hhit:
+				return len(h.HCase.Before) > 0 || h.What != whatHistory
+			}
+			return true
+		}
+		return self(res.OracleHits[i]) && !self(res.OracleHits[j])
+	})
 	sb.WriteString("].\nDefinition M := Eval vm_compute in tmismatches cases.\nPrint M.\n")
 	vf.WriteFile(filepath.Join(outDir, "Cases.v"), sb.String())
 	res.Cases = count
@@ -2487,8 +2531,25 @@ func runReplay(file string) {
 			fmt.Println(err)
 			os.Exit(2)
 		}
+		for i := range hc.Before {
+			p := cloneH(hc.Before[i])
+			observeH(&p)
+			fmt.Printf("earlier header %d: verdict=%d (%s)\n", i+1, p.Verdict, hverdictName(p.Verdict))
+		}
 		hb := observeH(&hc)
 		bw := batchCheck(&hc, hb)
+		if len(hc.Before) > 0 {
+			h2 := cloneH(hc)
+			aged := server
+			server, _ = ucon.NewVRFServer(nil)
+			observeH(&h2)
+			server = aged
+			if h2.Verdict != hc.Verdict {
+				fmt.Printf("verdict=%d (%s); a fresh verifier gives %d (%s)\n", hc.Verdict, hverdictName(hc.Verdict), h2.Verdict, hverdictName(h2.Verdict))
+				fmt.Println("ORACLE VIOLATION:", whatHistory)
+				os.Exit(1)
+			}
+		}
 		fmt.Printf("verdict=%d (%s) %s\n", hc.Verdict, hverdictName(hc.Verdict), hc.Err)
 		ws := oracleH(&hc, hb)
 		if bw != "" {
